@@ -164,10 +164,28 @@ EXPECT = {"crafted:z=bound-1": True, "crafted:ones=omega": True, "crafted:ones=m
           "len-1": False, "len+1": False, "message-modified": False}
 
 
-def _coverage(ctx, algo):
+def _coverage(ctx, algo, arith):
     """Coverage expectations about the generated cases (not oracles): a contradiction means the case
     generator is out of date -> exit 2, never a VIOLATION."""
     seen, acc, rej = {}, {}, {}
+    # rejection samplers: inputs selected by XOF consumption must include the rare long ones
+    xof = {}
+    for line in open(arith):
+        if '"kind":"searched' in line:
+            e = json.loads(line)
+            k = "%s/%s" % (e["ev"], e.get("eta", e.get("tau", "")))
+            xof[k] = sorted(set(xof.get(k, [])) | {e["blocks"]})
+    seeds3 = 0
+    for line in open(algo):
+        e = json.loads(line)
+        if e["ev"] == "note" and e.get("what") == "xof-search seed" and e["set"] == "65" and e["blocks"] >= 3:
+            seeds3 += 1
+    ctx.cov["sampler_inputs_by_xof_blocks"] = xof
+    ctx.cov["keygen_seeds_with_3_block_ExpandS_polynomial"] = seeds3
+    if max(xof.get("rejbounded/4", [0])) < 3 or seeds3 < 1:
+        raise vlib.Infra("case generator: no RejBoundedPoly(eta=4) input / KeyGen seed needing a third SHAKE256 block was found")
+    if xof.get("rejbounded/2") != [1, 2]:
+        raise vlib.Infra("case generator: RejBoundedPoly(eta=2) inputs needing one and two blocks expected, got %s" % xof.get("rejbounded/2"))
     for line in open(algo):
         e = json.loads(line)
         if e["ev"] != "verify":
@@ -208,7 +226,9 @@ def run(ctx):
         "reference's; composite ML-DSA (Ed25519, ECDSA) accepts iff both components verify. Buffers are treated adversarially: inputs "
         "are logged from pre-call copies and travel through one driver-owned buffer that is scribbled after every call; verification is "
         "called twice; signatures, prehashes and encoded keys are copied at return AND retained across later calls on the same "
-        "primitive (3 prehashes first, signed in another order, each verified against its own message) - both values are judged.")
+        "primitive (3 prehashes first, signed in another order, each verified against its own message) - both values are judged. "
+        "Rejection samplers: inputs are SEARCHED by XOF consumption (minimum / typical / maximum blocks in a bounded seeded search, "
+        "incl. RejBoundedPoly(eta=4) inputs and KeyGen seeds needing a third SHAKE256 block) and used as sampler events and KeyGen seeds.")
     ctx.assumptions += [
         "SHAKE128/256 are the Keccak sponge of spec/prim/jdk/Prim.java (cross-checked against the JDK's SHA3 at class load), independent of Go",
         "Ed25519 / ECDSA component verification of composite keys is the primitive layer's (JDK), see C03",
@@ -278,7 +298,7 @@ def run(ctx):
     _report(ctx, mism)
 
     if not mism and not arith_bad:
-        _coverage(ctx, algo)
+        _coverage(ctx, algo, arith)
         ctx.negative_control(ARITH, arith, corrupt_arith, window=40)
         ctx.negative_control(ALGO, algo, corrupt_algo, window=6)
 
